@@ -19,6 +19,7 @@ import (
 
 	"github.com/emersion/go-message/textproto"
 	"github.com/emersion/go-smtp"
+	"github.com/foxcpp/maddy/framework/buffer"
 	"github.com/foxcpp/maddy/framework/log"
 	"github.com/foxcpp/maddy/framework/module"
 	"github.com/foxcpp/maddy/internal/target/queue"
@@ -43,7 +44,15 @@ type crashPoint struct {
 	Phase   string // before | mid | end
 	Variant string // plain | drop-unsynced
 	Snap    map[string][]byte
-	Pos     int // number of log events that had happened
+	// The spool is in state Snap from the moment the previous call (or half
+	// write) was performed until this one is performed; PosLo / Pos are the
+	// log positions read inside the recorder callback of the previous call
+	// and of this one. Every log prefix of a length in [PosLo, Pos] together
+	// with Snap is a consistent cut of the execution: the previous call
+	// depends on nothing after PosLo (its goroutine was already inside the
+	// shim), and nothing logged before Pos can depend on this call.
+	PosLo int
+	Pos   int
 }
 
 func (cp *crashPoint) String() string {
@@ -61,6 +70,7 @@ type recorder struct {
 	ops     int
 	kinds   map[string]int
 	errs    []string
+	lastPos int
 }
 
 var theRec = &recorder{}
@@ -119,6 +129,9 @@ func (r *recorder) Op(op osshim.Op) {
 	pos := lg.Len()
 	r.mu.Lock()
 	defer r.mu.Unlock()
+	if !r.enabled || r.dir != dir || r.kinds == nil {
+		return // the epoch ended while this (stale) call was being snapshotted
+	}
 	if err1 != nil || err2 != nil {
 		r.errs = append(r.errs, fmt.Sprintf("snapshot failed at op %d: %v %v", op.Index, err1, err2))
 		return
@@ -128,26 +141,27 @@ func (r *recorder) Op(op osshim.Op) {
 		r.ops++
 		r.kinds[kind+":"+fileKind(op.Path)]++
 	}
-	r.points = append(r.points, crashPoint{Index: op.Index, Kind: kind, File: fileKind(op.Path), MsgID: fileMsgID(op.Path), Phase: op.Phase, Variant: "plain", Snap: plain, Pos: pos})
+	r.points = append(r.points, crashPoint{Index: op.Index, Kind: kind, File: fileKind(op.Path), MsgID: fileMsgID(op.Path), Phase: op.Phase, Variant: "plain", Snap: plain, PosLo: r.lastPos, Pos: pos})
 	if !sameSnap(plain, drop) {
-		r.points = append(r.points, crashPoint{Index: op.Index, Kind: kind, File: fileKind(op.Path), MsgID: fileMsgID(op.Path), Phase: op.Phase, Variant: "drop-unsynced", Snap: drop, Pos: pos})
+		r.points = append(r.points, crashPoint{Index: op.Index, Kind: kind, File: fileKind(op.Path), MsgID: fileMsgID(op.Path), Phase: op.Phase, Variant: "drop-unsynced", Snap: drop, PosLo: r.lastPos, Pos: pos})
 	}
+	r.lastPos = pos
 }
 
 func (r *recorder) begin(dir string, lg *mx.Log) {
 	r.mu.Lock()
 	r.enabled, r.dir, r.lg = true, dir, lg
-	r.points, r.ops, r.kinds, r.errs = nil, 0, map[string]int{}, nil
+	r.points, r.ops, r.kinds, r.errs, r.lastPos = nil, 0, map[string]int{}, nil, 0
 	r.mu.Unlock()
 	osshim.SetRecorder(r)
 }
 
-func (r *recorder) end() (points []crashPoint, ops int, kinds map[string]int, errs []string) {
+func (r *recorder) end() (points []crashPoint, ops int, kinds map[string]int, errs []string, lastPos int) {
 	osshim.SetRecorder(nil)
 	r.mu.Lock()
 	defer r.mu.Unlock()
 	r.enabled = false
-	points, ops, kinds, errs = r.points, r.ops, r.kinds, r.errs
+	points, ops, kinds, errs, lastPos = r.points, r.ops, r.kinds, r.errs, r.lastPos
 	r.points, r.kinds = nil, nil
 	return
 }
@@ -199,18 +213,18 @@ func installGlobalLog() {
 // ---------- one epoch = one queue process life ----------
 
 type epoch struct {
-	Events   []mx.Event
-	Points   []crashPoint
-	Ops      int
-	OpKinds  map[string]int
-	Final    map[string][]byte // spool after the queue was closed
+	Events     []mx.Event
+	Points     []crashPoint
+	Ops        int
+	OpKinds    map[string]int
+	Final      map[string][]byte // spool after the queue was closed
 	StartPanic string
-	Panics   int64
-	QLog     []string
-	Quiesced bool
-	Why      string // why not quiesced / harness problems
-	Closed   bool
-	Expected []string // recovery: ids the spool scan must turn into attempts
+	Panics     int64
+	QLog       []string
+	Quiesced   bool
+	Why        string // why not quiesced / harness problems
+	Closed     bool
+	Expected   []string // recovery: ids the spool scan must turn into attempts
 }
 
 type attemptCounter struct {
@@ -245,17 +259,33 @@ type env struct {
 	bounce *mx.ScriptTarget
 	att    *attemptCounter
 	qlog   *lineBuf
+	// sentinel barrier (recording run only, see drainPermits)
+	arrived chan struct{}
+	release chan struct{}
 }
+
+const (
+	recordingParallelism = 2
+	sentinelPrefix       = "c02sentinel"
+)
 
 func newEnv(partial bool) *env {
 	e := &env{lg: mx.NewLog(), att: &attemptCounter{n: map[string]int{}}, qlog: &lineBuf{}}
 	e.down = mx.NewTarget("down", e.lg)
 	e.down.Partial = partial
+	e.arrived = make(chan struct{}, 16)
+	e.release = make(chan struct{})
+	e.down.Hook = func(pt mx.Point) {
+		if pt.Stage == mx.StStart && strings.HasPrefix(pt.MsgID, sentinelPrefix) {
+			e.arrived <- struct{}{}
+			<-e.release
+		}
+	}
 	e.bounce = mx.NewTarget("bounce", e.lg)
 	return e
 }
 
-func (e *env) newQueue(dir string, maxTries int) (q *queue.Queue, panicked string, err error) {
+func (e *env) newQueue(dir string, maxTries, parallelism int) (q *queue.Queue, panicked string, err error) {
 	defer func() {
 		if v := recover(); v != nil {
 			panicked = fmt.Sprint(v)
@@ -264,7 +294,7 @@ func (e *env) newQueue(dir string, maxTries int) (q *queue.Queue, panicked strin
 	lgr := log.Logger{Name: "queue", Out: log.FuncOutput(func(_ time.Time, _ bool, msg string) { e.qlog.add(msg) }, func() error { return nil })}
 	q, err = queue.VerifNewQueue(queue.VerifOpts{
 		Dir: dir, Target: e.down, Bounce: e.bounce, MaxTries: maxTries,
-		InitialRetryTime: 0, RetryTimeScale: 1, PostInitDelay: 0, Parallelism: 4,
+		InitialRetryTime: 0, RetryTimeScale: 1, PostInitDelay: 0, Parallelism: parallelism,
 		Hostname: "mx.verif.example", AutogenMsgDomain: "verif.example", Log: &lgr,
 	})
 	return
@@ -310,6 +340,57 @@ func realSnapshot(dir string) map[string][]byte {
 		}
 	}
 	return out
+}
+
+// drainPermits proves that no delivery goroutine of the recording queue is
+// still inside tryDelivery (in particular inside the blocking TimeWheel.Add of
+// a retry) before Queue.Close is called: it enqueues as many sentinel
+// messages as the queue has delivery permits and holds each inside the
+// downstream's Start until ALL of them are there. At that instant the
+// sentinels hold every permit, so every earlier goroutine has returned; the
+// sentinels themselves are delivered at once and never schedule a retry.
+// (Closing a queue while a retry is being scheduled panics in the pinned
+// tree: TimeWheel Add/Close, C12's defect, which this harness must not
+// provoke.) The recorder is off; nothing after the end point is judged.
+func drainPermits(q *queue.Queue, e *env, sc *scenario, dir string) string {
+	ctx := context.Background()
+	var ids []string
+	for k := 0; k < recordingParallelism; k++ {
+		id := fmt.Sprintf("%s%dx%s", sentinelPrefix, k, sc.Msgs[0].ID)
+		ids = append(ids, id)
+		d, err := q.Start(ctx, &module.MsgMetadata{ID: id, OriginalFrom: "sentinel@origin.example"}, "sentinel@origin.example")
+		if err != nil {
+			return "sentinel: " + err.Error()
+		}
+		d.AddRcpt(ctx, "sentinel@dest.example", smtp.RcptOptions{})
+		hdr := textproto.Header{}
+		hdr.Add("Subject", "sentinel")
+		if err := d.Body(ctx, hdr, buffer.MemoryBuffer{Slice: []byte("s\r\n")}); err != nil {
+			d.Abort(ctx)
+			return "sentinel: " + err.Error()
+		}
+		if err := d.Commit(ctx); err != nil {
+			return "sentinel: " + err.Error()
+		}
+	}
+	timeout := time.After(watchdogRecording)
+	for k := 0; k < recordingParallelism; k++ {
+		select {
+		case <-e.arrived:
+		case <-timeout:
+			close(e.release)
+			return "sentinel deliveries did not all start within the watchdog"
+		}
+	}
+	close(e.release)
+	deadline := time.Now().Add(watchdogRecording)
+	for len(metasPresent(dir, ids)) > 0 {
+		if time.Now().After(deadline) {
+			return "sentinel messages did not leave the spool within the watchdog"
+		}
+		time.Sleep(200 * time.Microsecond)
+	}
+	return ""
 }
 
 // runRecording executes the scenario on a fresh spool with the scripted
@@ -363,7 +444,7 @@ func runRecording(sc *scenario, tmp string) *epoch {
 	}
 
 	theRec.begin(dir, e.lg)
-	q, pan, err := e.newQueue(dir, sc.MaxTries)
+	q, pan, err := e.newQueue(dir, sc.MaxTries, recordingParallelism)
 	if pan != "" || err != nil {
 		theRec.end()
 		ep.Why = fmt.Sprintf("cannot start the recording queue: %v %v", pan, err)
@@ -442,20 +523,27 @@ func runRecording(sc *scenario, tmp string) *epoch {
 		}
 		time.Sleep(200 * time.Microsecond)
 	}
-	ep.Closed = closeQueue(q)
-	if !ep.Closed {
-		ep.Quiesced = false
-		ep.Why = "recording run: Queue.Close did not return within the watchdog"
-	}
 	var errs []string
-	ep.Points, ep.Ops, ep.OpKinds, errs = theRec.end()
+	var lastPos int
+	ep.Points, ep.Ops, ep.OpKinds, errs, lastPos = theRec.end()
 	if len(errs) > 0 {
 		ep.Quiesced = false
 		ep.Why = "recorder: " + errs[0]
 	}
 	ep.Events = e.lg.Events()
 	ep.Final = realSnapshot(dir)
-	ep.Points = append(ep.Points, crashPoint{Index: 0, Kind: "end", File: "-", Phase: "end", Variant: "plain", Snap: ep.Final, Pos: len(ep.Events)})
+	ep.Points = append(ep.Points, crashPoint{Index: 0, Kind: "end", File: "-", Phase: "end", Variant: "plain", Snap: ep.Final, PosLo: lastPos, Pos: len(ep.Events)})
+	if ep.Quiesced {
+		if why := drainPermits(q, e, sc, dir); why != "" {
+			ep.Quiesced = false
+			ep.Why = "recording run: " + why
+		}
+	}
+	ep.Closed = closeQueue(q)
+	if !ep.Closed {
+		ep.Quiesced = false
+		ep.Why = "recording run: Queue.Close did not return within the watchdog"
+	}
 	ep.Panics = panicLines.Load() - p0
 	ep.QLog = e.qlog.get()
 	return ep
@@ -538,7 +626,13 @@ func runRecovery(sc *scenario, tmp string, n int, snap map[string][]byte, record
 	if record {
 		theRec.begin(dir, e.lg)
 	}
-	q, pan, err := e.newQueue(dir, 5)
+	// Parallelism 1 makes "metadata of every expected message is gone" a
+	// LOGICAL quiescence condition: a delivery goroutine holds the only permit
+	// until its tryDelivery (including the blocking TimeWheel.Add of a retry)
+	// has returned, so when the last attempt removes the last metadata file no
+	// other goroutine is inside Add and Queue.Close cannot race with it
+	// (TimeWheel Add/Close is C12's defect, not a recovery panic).
+	q, pan, err := e.newQueue(dir, 5, 1)
 	if pan != "" || err != nil {
 		if record {
 			theRec.end()
@@ -570,18 +664,20 @@ func runRecovery(sc *scenario, tmp string, n int, snap map[string][]byte, record
 		ep.Quiesced = false
 		ep.Why = "recovery: Queue.Close did not return within the watchdog"
 	}
+	lastPos, recOK := 0, record
 	if record {
 		var errs []string
-		ep.Points, ep.Ops, ep.OpKinds, errs = theRec.end()
+		ep.Points, ep.Ops, ep.OpKinds, errs, lastPos = theRec.end()
 		if len(errs) > 0 {
 			ep.Why = "recorder: " + errs[0]
 			ep.Points = nil
+			recOK = false
 		}
 	}
 	ep.Events = e.lg.Events()
 	ep.Final = realSnapshot(dir)
-	if record {
-		ep.Points = append(ep.Points, crashPoint{Index: 0, Kind: "end", File: "-", Phase: "end", Variant: "plain", Snap: ep.Final, Pos: len(ep.Events)})
+	if recOK {
+		ep.Points = append(ep.Points, crashPoint{Index: 0, Kind: "end", File: "-", Phase: "end", Variant: "plain", Snap: ep.Final, PosLo: lastPos, Pos: len(ep.Events)})
 	}
 	ep.Panics = panicLines.Load() - p0
 	ep.QLog = e.qlog.get()
